@@ -17,12 +17,21 @@ ENVS = {"jit": {}, "vm": {"SONIC_ENCODER_USE_VM": "1"}}
 class C12(Spec):
     prop = "C12"
     lean_modules = ["SonicSpec.Props.C12"]
-    needs_factx = False
+    needs_factx = True   # Model/Ir.lean reads MaxStack / MAX_ILBUF / MAX_FIELDS / DefaultMaxInlineDepth from Generated/Consts
     rule = ("the C03/C04 value generators under ConfigStd, the default word and a random option word, each case run by a JIT worker "
             "and by a SONIC_ENCODER_USE_VM=1 worker; non-trivial when the type has a constructor, the value is a float or a string "
-            "needing an escape, or either side reports an error")
+            "needing an escape, or either side reports an error; ir-*: the REAL compiler's program text for generated types "
+            "(hook, op irdis) against the model compiler's, exact text equality, and Marshal under both back ends against "
+            "the model's exec (compile T) v; non-trivial when the program has >= 2 instructions")
     trusted_base = ["both back ends are machine code / Go code outside the model; tied by differential runs only",
-                    "spec_compat.go (the fallbacks used off amd64/arm64) is transliterated in Model/EncCompat.lean; on this platform it is not compiled in"]
+                    "spec_compat.go (the fallbacks used off amd64/arm64) is transliterated in Model/EncCompat.lean; on this platform it is not compiled in",
+                    "encoder IR: the x86 assembler's meaning of an instruction is tied to the interpreter's only by the differential run; "
+                    "leaf formatters and the post-passes of encoder.go encodeFinish are the specification's (Model/IrExec.lean header)"]
+
+    def harness_tags(self):
+        ok = os.path.exists(os.path.join(core.REPO, "verifhook", "encoder.go")) and \
+            os.path.exists(os.path.join(core.REPO, "internal", "encoder", "verif_hook.go"))
+        return ["hook_ir"] if ok else []
 
     def streams(self, tier, seed):
         q = tier == "quick"
@@ -37,7 +46,62 @@ class C12(Spec):
             S("floats", "enc.be.floats", 300 if q else 40000),
             S("callbacks", "enc.be.callbacks", 150 if q else 8000),
             S("error-paths", "enc.be.errors", 60 if q else 2500, 0.3),
+        ] + self.ir_streams(q)
+
+    # ---- encoder IR (work package `ir`): disassembly tie + behaviour against the model's exec
+    def ir_streams(self, q):
+        def M(name, gen, n, timeout=0.1):
+            return Stream(name, gen, n, envs=ENVS, timeout=timeout, use_model=True)
+        return [
+            M("ir-edge", "ir.edge", 1, 60.0),
+            M("ir-types", "ir.types", 500 if q else 30000),
+            M("ir-cutoff", "ir.cutoff", 120 if q else 4000, 0.5),
+            M("ir-mar", "ir.mar", 500 if q else 40000),
+            M("ir-deep", "ir.deep", 100 if q else 6000, 0.3),
         ]
+
+    def model_line(self, case, sonic):
+        if case[0] == "mar":
+            return "\t".join(["irmar"] + case[1:4] + ["out=" + (sonic.get("out") or "~")])
+        return "\t".join(case)
+
+    def judge_ir(self, case, sonic, model):
+        out = []
+        for env in ("jit", "vm"):
+            s = sonic.get(env) or {}
+            m = model.get(env) or {}
+            mm = m.get("model")
+            if mm is None or mm.startswith("unsupported") or s.get("sonic") in (None, "unsupported"):
+                continue
+            if case[0] == "irdis":
+                so = s.get("sonic", "")
+                if mm == "panic" and so.startswith("err"):
+                    continue
+                if mm != "ok" or so != "ok":
+                    out.append(("tie:ir-disassembly", "%s: compiler outcome sonic=%s model=%s" % (env, so[:80], mm)))
+                elif s.get("dis") != m.get("dis"):
+                    a = _enc.unhex(s.get("dis", "-")).decode("utf-8", "replace").split("\n")
+                    b = _enc.unhex(m.get("dis", "-")).decode("utf-8", "replace").split("\n")
+                    k = next((i for i, (x, y) in enumerate(zip(a, b)) if x != y), min(len(a), len(b)))
+                    out.append(("tie:ir-disassembly", "%s: line %d real=%r model=%r (%d vs %d lines)"
+                                % (env, k, a[k] if k < len(a) else None, b[k] if k < len(b) else None, len(a), len(b))))
+            elif case[0] == "mar":
+                so = s.get("sonic")
+                if mm == "ok":
+                    if so != "ok" or m.get("so") != "eq":
+                        out.append(("tie:ir-exec", "%s: sonic=%s out=%s model=%s" % (env, so, s.get("out", "")[:300], m.get("mout", "")[:300])))
+                elif mm.startswith("err:"):
+                    if so == "ok":
+                        out.append(("tie:ir-exec", "%s: sonic=ok out=%s model=%s" % (env, s.get("out", "")[:300], mm)))
+        return out
+
+    def model_ref_disagree(self, case, sonic, model):
+        """inside the sub-universe of exec_compile_eq_encode_partial the model's machine and the model's specification
+        must agree (the theorem says so): a `spec=ne` there means the driver no longer runs what was proved"""
+        for m in model.values():
+            if m and m.get("sub") == "1" and m.get("spec") == "ne":
+                return True
+        return False
 
     def judge(self, case, sonic, model):
         j = sonic.get("jit") or {}
@@ -53,10 +117,17 @@ class C12(Spec):
             return [("backends-differ-errorness", "jit=%s vm=%s" % (j.get("sonic"), v.get("sonic")))]
         if jo and (j.get("out") != v.get("out") or j.get("same") != v.get("same") or j.get("valid") != v.get("valid")):
             return [("backends-differ", "jit=%s vm=%s" % (j.get("out", "")[:600], v.get("out", "")[:600]))]
+        if case[0] == "irdis" or any(model.values()):
+            return self.judge_ir(case, sonic, model)
         return []
 
     def nontrivial(self, case, sonic, model):
         j = sonic.get("jit") or {}
+        if case[0] == "irdis":
+            try:
+                return int(j.get("n", "0")) >= 2
+            except ValueError:
+                return False
         if case[0] != "mar":
             return True
         return "(" in case[2] or "(f" in case[3] or "(s " in case[3] or j.get("sonic") != "ok"
@@ -70,6 +141,7 @@ class C12(Spec):
     def extra(self, ctx):
         """regenerated fact: rt.SafeSet (the table spec_compat.go's Quote consults) is what Compat.safeSet says"""
         problems = []
+        ctx["run"].cov["ir_hook_present"] = bool(self.harness_tags())
         path = os.path.join(core.REPO, "internal", "rt", "table.go")
         try:
             src = open(path).read()
